@@ -375,7 +375,7 @@ func (m *message) UnmarshalBody(bodyBytes []byte) error {
 		default:
 			if c, err := codec.Get(m.bodyCodec); err == nil {
 				// codecs for which the empty input is no document fail here and leave the receiver alone
-				_ = c.Unmarshal(bodyBytes, m.body)
+				_ = unmarshalBody(c, bodyBytes, m.body)
 			}
 		}
 		return nil
@@ -386,7 +386,7 @@ func (m *message) UnmarshalBody(bodyBytes []byte) error {
 		if err != nil {
 			return err
 		}
-		return c.Unmarshal(bodyBytes, m.body)
+		return unmarshalBody(c, bodyBytes, m.body)
 	case nil:
 		return nil
 	case *[]byte:
@@ -398,6 +398,18 @@ func (m *message) UnmarshalBody(bodyBytes []byte) error {
 		copy(*body, bodyBytes)
 		return nil
 	}
+}
+
+// unmarshalBody decodes the body; a panic inside the decoder of a body type (generated code, a
+// type's own unmarshaler) is a decoding failure of this message - it must not unwind through the
+// reader of the connection, which holds the lock of the call the message answers.
+func unmarshalBody(c codec.Codec, bodyBytes []byte, body interface{}) (err error) {
+	defer func() {
+		if p := recover(); p != nil {
+			err = fmt.Errorf("panic while unmarshalling the body: %v", p)
+		}
+	}()
+	return c.Unmarshal(bodyBytes, body)
 }
 
 // XferPipe returns transfer filter pipe, handlers from outer-most to inner-most.
